@@ -131,6 +131,9 @@ fn check(case: &Case, p: &mut Probe) -> Check {
                 "run-returned-err" => "run-returned-err",
                 "workers-as-affinity" => "workers-as-affinity",
                 "no-reporter" => "no-reporter",
+                "zero-frame-error-target" => "zero-frame-error-target",
+                "ebn0-list-with-repeats" => "ebn0-list-with-repeats",
+                "ebn0-list-descending" => "ebn0-list-descending",
                 "puncturing-interleaving-or-8psk" => "puncturing-interleaving-or-8psk",
                 _ => "other",
             };
@@ -363,11 +366,24 @@ fn run_case(c: &Case) -> serde_json::Value {
         _ => (0, 0, false),
     };
     let sh = Arc::new(Shared { seed: c.seed, k, thr: c.bch_t as usize, built: AtomicUsize::new(0), dropped: AtomicUsize::new(0), produced: Mutex::new([0; NTYPES]), weights: c.weights, delay_mode: c.delay_mode, panic_mask: mask, panic_at: at, slow, workers_per_point: AtomicUsize::new(c.ncpu) });
-    let ebn0s: Vec<f32> = (0..c.points).map(|i| 40.0 + i as f32).collect();
+    // the list of Eb/N0 points: ascending (half of the cases), descending, with a repeated value, or the
+    // same value throughout (a point may be requested more than once). Lists with repeated values run
+    // without a reporter: reports carry only the Eb/N0 value, which cannot tell such points apart
+    let shape = (c.seed / 7) % 6;
+    let ebn0s: Vec<f32> = (0..c.points)
+        .map(|i| match shape {
+            3 => 40.0 + (c.points - 1 - i) as f32,
+            4 => 40.0 + (i / 2) as f32,
+            5 => 40.0,
+            _ => 40.0 + i as f32,
+        })
+        .collect();
+    let repeated = ebn0s.windows(2).any(|w| w[0] == w[1]);
+    let no_reporter = c.no_reporter || repeated;
     let (tx, rx) = std::sync::mpsc::channel();
     // without a reporter the channel is kept open by `_keep`, so that the witness monitor keeps running
     let mut _keep = None;
-    let reporter = if c.no_reporter {
+    let reporter = if no_reporter {
         _keep = Some(tx);
         None
     } else {
@@ -473,7 +489,7 @@ fn run_case(c: &Case) -> serde_json::Value {
         Err(p) => return viol("run-panicked", format!("BerTest::run itself panicked: {p}")),
         Ok(r) => r,
     };
-    if c.no_reporter {
+    if no_reporter {
         classes.push("no-reporter");
     }
     if c.chain != 0 && c.inject == Inject::None {
@@ -481,7 +497,7 @@ fn run_case(c: &Case) -> serde_json::Value {
     }
     // report stream: Finished exactly once and last
     let finished = reports.iter().filter(|r| matches!(r, Report::Finished)).count();
-    if !c.no_reporter && (finished != 1 || reports.last() != Some(&Report::Finished)) {
+    if !no_reporter && (finished != 1 || reports.last() != Some(&Report::Finished)) {
         return viol("finished-report", format!("'finished' report delivered {finished} times, last report is {:?}", reports.last().map(|r| matches!(r, Report::Finished))));
     }
     if built_at_return != dropped_at_return || built != dropped {
@@ -547,7 +563,7 @@ fn run_case(c: &Case) -> serde_json::Value {
         }
     }
     for (i, s) in stats.iter().enumerate() {
-        if c.no_reporter {
+        if no_reporter {
             break;
         }
         match &last_of[i] {
@@ -568,6 +584,12 @@ fn run_case(c: &Case) -> serde_json::Value {
     }
     if c.max_err == 0 {
         classes.push("zero-frame-error-target");
+    }
+    if repeated {
+        classes.push("ebn0-list-with-repeats");
+    }
+    if shape == 3 && c.points >= 2 {
+        classes.push("ebn0-list-descending");
     }
     // single worker: the counted set is exactly the script prefix
     if workers == 1 {
@@ -605,7 +627,7 @@ pub fn property() -> Property {
         subs: vec![
             Box::new(Sub {
                 name: "statistics",
-                rule: "each case in a child process pinned (sched_setaffinity) to 1..16 CPUs, so that the engine starts that many workers; BPSK, 40 dB, no puncturing (a third of the cases: parity blocks punctured with an interleaver of 4 or -8 columns, or 8PSK with puncturing, block sizes that fit the transmitted but not the codeword length): the hard decision of the LLRs of the systematic part is the message; a scripted decoder (per decoder instance and frame: type and delay from a hash of the case seed; delays none / yield / 0-200 us sleeps / stalled even workers) returns it with e_t systematic bits flipped (parity bits too in some types), verdict v_t and iteration count B^t (B = 1024) for six frame types (0, 0, 1, T = exactly the outer-code threshold, T+1 with a success verdict = false decode, k bit errors; T drawn from 1..=4), so total_iterations decodes uniquely into counted frames per type and every reported number is predicted exactly (frames, frame errors, false decodes, systematic bit errors, correct-frame iterations, outer-code accounting with threshold T, BER/FER/averages as ratios, stop exactly at max_frame_errors in 1..=40 (one case in 25: a target of 0, which every point meets before its first frame), counted <= produced per type); report stream: same identities, frame counts non-decreasing per point, last report = returned entry, 'finished' exactly once and last; all decoders built are dropped when run() returns; with one worker the counted set is exactly the script prefix; 1-3 Eb/N0 points, with/without outer-code threshold; one case in five runs without a reporter (return value only); non-trivial = >= 2 workers and >= 3 frame types counted; inner = frames decoded",
+                rule: "each case in a child process pinned (sched_setaffinity) to 1..16 CPUs, so that the engine starts that many workers; BPSK, 40 dB, no puncturing (a third of the cases: parity blocks punctured with an interleaver of 4 or -8 columns, or 8PSK with puncturing, block sizes that fit the transmitted but not the codeword length): the hard decision of the LLRs of the systematic part is the message; a scripted decoder (per decoder instance and frame: type and delay from a hash of the case seed; delays none / yield / 0-200 us sleeps / stalled even workers) returns it with e_t systematic bits flipped (parity bits too in some types), verdict v_t and iteration count B^t (B = 1024) for six frame types (0, 0, 1, T = exactly the outer-code threshold, T+1 with a success verdict = false decode, k bit errors; T drawn from 1..=4), so total_iterations decodes uniquely into counted frames per type and every reported number is predicted exactly (frames, frame errors, false decodes, systematic bit errors, correct-frame iterations, outer-code accounting with threshold T, BER/FER/averages as ratios, stop exactly at max_frame_errors in 1..=40 (one case in 25: a target of 0, which every point meets before its first frame), counted <= produced per type); report stream: same identities, frame counts non-decreasing per point, last report = returned entry, 'finished' exactly once and last; all decoders built are dropped when run() returns; with one worker the counted set is exactly the script prefix; 1-3 Eb/N0 points (ascending, descending, with a value repeated or all equal; lists with repeats run without a reporter), with/without outer-code threshold; one case in five runs without a reporter (return value only); non-trivial = >= 2 workers and >= 3 frame types counted; inner = frames decoded",
                 cases: |t| t.pick(6_000, 150_000),
                 strategy,
                 check,
